@@ -38,6 +38,11 @@ class Ctx:
   def fun(self, name):
     return self.funs.setdefault(name, len(self.funs))
 
+  def pred(self, name):
+    if not hasattr(self, 'preds'):
+      self.preds = {}
+    return self.preds.setdefault(name, len(self.preds))
+
   def field(self, f):
     if isinstance(f, int):
       return f
@@ -83,12 +88,69 @@ def structure(s, cx):
   return '{| sel := %s; unifs := %s; cons := %s |}' % (sel, un, co)
 
 
+CONSTRAINT_PREDICATES = ('<=', '<', '>', '>=', '!=', '&&', '||', '!', 'IsNull', 'Like', 'Constraint', 'is', 'is not', '~')
+
+
+def crule_of(rule, cx):
+  """The parsed rule as a Coq `crule` (Core/Extract.v); Unsupported outside the fragment."""
+  head = []
+  for fv in rule['head']['record']['field_value']:
+    if 'expression' not in fv['value']:
+      raise Unsupported('aggregation in head')
+    head.append('(%d, %s)' % (cx.field(fv['field']), conv(fv['value']['expression'], cx)))
+  if not head:
+    raise Unsupported('empty head')
+  if 'distinct_denoted' in rule:
+    raise Unsupported('distinct')
+  body = []
+  natoms = 0
+  for c in rule['body']['conjunction']['conjunct']:
+    if 'predicate' in c:
+      name = c['predicate']['predicate_name']
+      if name in CONSTRAINT_PREDICATES:
+        body.append('(KCond %s)' % conv({'call': c['predicate']}, cx))
+      else:
+        args = []
+        for fv in c['predicate']['record']['field_value']:
+          if 'except' in fv or 'expression' not in fv['value'] or fv['field'] == '*':
+            raise Unsupported('argument form')
+          args.append('(%d, %s)' % (cx.field(fv['field']), conv(fv['value']['expression'], cx)))
+        body.append('(KAtom %d [%s])' % (cx.pred(name), '; '.join(args)))
+        natoms += 1
+    elif 'unification' in c:
+      body.append('(KUnify %s %s)' % (conv(c['unification']['left_hand_side'], cx),
+                                      conv(c['unification']['right_hand_side'], cx)))
+    else:
+      raise Unsupported('conjunct %s' % list(c))
+  return '{| k_head := [%s]; k_body := [%s] |}' % ('; '.join(head), '; '.join(body)), natoms
+
+
+def extract_case(rule, s, cx):
+  """Coq `judge_extract` argument text, or None when the rule is outside the extraction fragment."""
+  import copy as _copy
+  try:
+    cr, natoms = crule_of(rule, cx)
+  except Unsupported:
+    return None
+  if len(s.tables) != natoms:      # calls of user predicates inside expressions were inlined as extra tables
+    return None
+  tnames = list(s.tables)
+  cols = []
+  for xv, (tn, tv) in s.inv_vars_map.items():
+    if tn is None:
+      return None
+    cols.append('(%d, (%d, %d))' % (cx.var(xv), tnames.index(tn), cx.field(tv)))
+  tabs = '[%s]' % '; '.join(str(cx.pred(s.tables[t])) for t in tnames)
+  return 'judge_extract %s %s [%s] %s' % (cr, structure(s, cx), '; '.join(cols), tabs)
+
+
 def cases_of_program(text):
   """Yields (rule text, coq `judge_elim` argument text) for the rules of the program the model covers."""
   parse, universe, rule_translate = logica_run.modules()[:3]
   rules = logica_run.parse_rules(text)
   out = []
   skipped = 0
+  extract_cases = []
   for rule in rules:
     if rule['head']['predicate_name'].startswith('@') or 'body' not in rule:
       continue
@@ -98,6 +160,9 @@ def cases_of_program(text):
       if s.unnestings:
         raise Unsupported('unnesting')
       cx = Ctx()
+      ec = extract_case(rule, s, cx)
+      if ec:
+        extract_cases.append((rule.get('full_text', ''), ec))
       s0 = structure(s, cx)
       ext = '[%s]' % '; '.join(str(cx.var(v)) for v in sorted(s.ExtractedVariables(), key=str))
       try:
@@ -112,11 +177,11 @@ def cases_of_program(text):
       skipped += 1
     except AssertionError:
       skipped += 1
-  return out, skipped
+  return out, skipped, extract_cases
 
 
 HEADER = ('From Coq Require Import List ZArith Arith. Import ListNotations.\n'
-          'From LV Require Import Core.Syntax Core.Eval Core.Elim.\n')
+          'From LV Require Import Core.Syntax Core.Eval Core.Elim Core.Extract.\n')
 
 
 def run_tie(texts, jobs=8):
@@ -124,14 +189,18 @@ def run_tie(texts, jobs=8):
   from concurrent.futures import ThreadPoolExecutor
   from vlib import coqrun
   items = []
+  xitems = []
   skipped = 0
   for t in texts:
     try:
-      cs, sk = cases_of_program(t)
+      cs, sk, xs = cases_of_program(t)
     except Exception:  # pylint: disable=broad-except
       continue
     items.extend(cs)
+    xitems.extend(xs)
     skipped += sk
+  n_elim = len(items)
+  items = items + xitems
   chunks = [items[i:i + 60] for i in range(0, len(items), 60)]
 
   def one(ch):
@@ -151,6 +220,10 @@ def run_tie(texts, jobs=8):
         codes.extend([None] * 60)
       else:
         codes.extend(vals)
-  mism = [(items[i][0], c) for i, c in enumerate(codes[:len(items)]) if c not in (0, 1)]
-  return {'rules': len(items), 'exact': codes.count(0), 'both_reject': codes.count(1), 'skipped_unsupported': skipped,
-          'mismatches': mism, 'error': err}
+  codes = codes[:len(items)]
+  ecodes, xcodes = codes[:n_elim], codes[n_elim:]
+  mism = [(items[i][0], c) for i, c in enumerate(ecodes) if c not in (0, 1)]
+  xmism = [(items[n_elim + i][0], c) for i, c in enumerate(xcodes) if c != 0]
+  return {'rules': n_elim, 'exact': ecodes.count(0), 'both_reject': ecodes.count(1), 'skipped_unsupported': skipped,
+          'mismatches': mism, 'error': err,
+          'extract_rules': len(xcodes), 'extract_exact': xcodes.count(0), 'extract_mismatches': xmism}
